@@ -128,7 +128,7 @@ def write_replay(prop, obl, extra=None):
     return path
 
 
-def finish(prop, tier, seed, results, t0, level_text, extra_assumptions, trusted_base):
+def finish(prop, tier, seed, results, t0, level_text, extra_assumptions, trusted_base, category="proof"):
     """Write evidence, print KNOWN-FINDING / VIOLATION lines, return exit code."""
     known = [k for k in load_known() if k["prop"] == prop]
     obls = [o for r in results for o in r.obls]
@@ -172,7 +172,7 @@ def finish(prop, tier, seed, results, t0, level_text, extra_assumptions, trusted
             samples.append(s)
     samples = samples[:40]
     ev = dict(
-        property_id=prop, tier=tier, seed=seed, level="proof",
+        property_id=prop, tier=tier, seed=seed, level=category,
         coverage=dict(
             obligations=n_obl, discharged=n_obl,
             checker_cmd="; ".join(sorted({c for r in results for c in r.cmds}))[:4000] or "n/a",
@@ -201,8 +201,14 @@ def finish(prop, tier, seed, results, t0, level_text, extra_assumptions, trusted
         wall_s=round(time.time() - t0, 2),
         violations=len(violations),
     )
+    n_bounded = sum(o.count for o in bounded)
+    if category != "proof":
+        # bounded-only property: nothing is counted as proved; the bounded contract checks are reported as what they are
+        ev["coverage"]["evaluations"] = n_bounded + n_obl
+        ev["coverage"]["distinct_nontrivial"] = len(bounded) + len(proved)
+        ev["coverage"]["rule"] = ("each case is one contract harness verified by Kani/CBMC over ALL inputs within its stated bound "
+                                  "(symbolic, complete up to the bound); evaluations = CBMC checks discharged, distinct = harnesses")
     if n_obl == 0:
-        # schema wants >=1 for proof level; an empty run is a tool failure, reported as such
         ev["coverage"]["obligations"] = 0
         ev["coverage"]["discharged"] = 0
     os.makedirs(EVIDENCE_DIR, exist_ok=True)
@@ -219,7 +225,7 @@ def finish(prop, tier, seed, results, t0, level_text, extra_assumptions, trusted
            time.time() - t0))
     if violations:
         return 1
-    if errors or undecided or n_obl == 0:
+    if errors or undecided or (n_obl == 0 and category == "proof") or (n_obl + n_bounded == 0):
         for r in errors:
             log("TOOL-ERROR unit=%s: %s" % (r.name, (r.error or "")[:2000]))
         for o in undecided:
